@@ -205,6 +205,26 @@ def oracle_ds(ds, sw, desc, requested=None):
     return None
 
 
+def oracle_df_rows(rows, sw, desc):
+    """each row's outputs are the function's value at that row's own arguments; constants/attrs carried, resources not"""
+    kind = kind_of(desc); sz = sweeps.sizes(sw); k = len(desc['names'])
+    fa = sweeps.fn_args(sw)
+    for row in rows:
+        try:
+            loc = [[canon(x) for x in sw['values'][a]].index(row[a]) for a in fa]
+        except (KeyError, ValueError):
+            return f'row {row} has argument values that were not swept'
+        v = fns.render(kind, fns.code_of_ranks(loc, sz))
+        for j, n in enumerate(desc['names']):
+            if row.get(n) != canon(v[j] if k > 1 else v):
+                return f'row with arguments {dict(zip(fa, loc))} carries {n}={row.get(n)!r}, the function returned {canon(v[j] if k > 1 else v)!r}'
+        for r in desc['resources']:
+            if r in row: return f'resource {r} recorded in the row'
+        for c, val in list(desc['constants'].items()) + list(desc['attrs'].items()):
+            if row.get(c) != canon(val): return f'constant/attribute {c} not in the row'
+    return None
+
+
 def oracle_df(rows, sw, desc, n_expected):
     kind = kind_of(desc); sz = sweeps.sizes(sw); k = len(desc['names'])
     fa = sweeps.fn_args(sw)
